@@ -62,6 +62,13 @@ def run(ctx, prop, parts_quick, parts_thorough, sample_quick=None, modes=(16, 32
             cid = R.add(st)
         jobs = [{"id": c["id"], "src": c["src"]} for c in R.cases if c["id"] not in R.results]
         R.results.update(ctx.run_jobs(jobs))
+    ncorpus = 0
+    if prop in ("C01", "C02"):
+        # real programs (the haribote-OS sources of the repository's own tests, as written): every instruction in them is judged too
+        import corpus
+        ncorpus = len(corpus.add(R, tags=("C12", prop)))
+        jobs = [dict({"id": c["id"], "src": c["src"]}, **c["job"]) for c in R.cases if c["id"] not in R.results]
+        R.results.update(ctx.run_jobs(jobs))
     ver = ctx.validate("Trace_Asm", R.traces())
     F = Findings()
     viol, known, other = flow.classify(ctx, ver, R, F, prop)
@@ -76,7 +83,7 @@ def run(ctx, prop, parts_quick, parts_thorough, sample_quick=None, modes=(16, 32
     cov = {
         "states": sum(s["distinct"] for s in ctx.tlc_stats), "transitions": sum(s["generated"] for s in ctx.tlc_stats),
         "traces_validated_against_impl": len(R.cases), "trace_events": ver["events"],
-        "cells": len(cells) * len(modes), "cells_per_part": per_part, "modes": list(modes),
+        "cells": len(cells) * len(modes), "cells_per_part": per_part, "corpus_programs": ncorpus, "modes": list(modes),
         "mnemonics_not_in_grammar_skipped": sorted({c["mn"] for c in skipped}),
         "statements_judged_by_reference": judged, "statements_outside_isa_model": unjudged,
         "statements_diagnosed_by_gosk": dgs, "program_status": statuses,
